@@ -604,10 +604,46 @@ type failOutcome struct {
 	violations   []string
 	inconclusive string
 	faultFired   bool
+	bystander    string // fork kept running during an in-process retry
+	retriedOthers int
 }
 
 // dependentsOf returns the fork keys (callpath/forkdir) of all invocations
 // that transitively depend on the fork owning job.
+// ancestorsOf returns the forks the given fork (transitively) depends on.
+func ancestorsOf(fp *faultProgram, forkKey string) map[string]bool {
+	byInv := map[*pgen.StageInvocation]string{}
+	var root *pgen.StageInvocation
+	for _, inv := range fp.model.Invs {
+		if f, ok := inv.Token.(*vmon.Fork); ok && f != nil {
+			byInv[inv] = f.Key
+			if f.Key == forkKey {
+				root = inv
+			}
+		}
+	}
+	out := map[string]bool{}
+	if root == nil {
+		return out
+	}
+	seen := map[*pgen.StageInvocation]bool{root: true}
+	stack := []*pgen.StageInvocation{root}
+	for len(stack) > 0 {
+		inv := stack[len(stack)-1]
+		stack = stack[:len(stack)-1]
+		for _, d := range inv.Deps {
+			if !seen[d] {
+				seen[d] = true
+				stack = append(stack, d)
+				if k, ok := byInv[d]; ok {
+					out[k] = true
+				}
+			}
+		}
+	}
+	return out
+}
+
 func dependentsOf(fp *faultProgram, forkKey string) map[string]bool {
 	// map fork -> invocation
 	var root *pgen.StageInvocation
@@ -667,6 +703,27 @@ func runFailCase(c *vf.Ctx, fp *faultProgram, idx int, fs failSpec) *failOutcome
 		rule.Attempt = 0
 	}
 	cs.Spec.Rules = append([]pgen.Rule{rule}, baseRules...)
+	failedFork := fs.Job[:strings.LastIndexByte(fs.Job, '/')]
+	if fs.AutoRetry > 0 && !fs.Repeated {
+		// a bystander: one fork that neither feeds nor depends on the failing
+		// job is kept running while mrp retries in-process
+		rel := dependentsOf(fp, failedFork)
+		for k := range ancestorsOf(fp, failedFork) {
+			rel[k] = true
+		}
+		var by []string
+		for k := range fp.obs.Forks {
+			if k != failedFork && !rel[k] {
+				by = append(by, k)
+			}
+		}
+		sort.Strings(by)
+		if len(by) > 0 {
+			b := by[int(fp.seed+int64(idx))%len(by)]
+			cs.Spec.Rules = append(cs.Spec.Rules, pgen.Rule{JobPrefix: b + "/", DelayBeforeMs: 2500})
+			oc.bystander = b
+		}
+	}
 	cs.WriteSpec()
 	args := append(mrpArgs(fp.vdr), fmt.Sprintf("--autoretry=%d", fs.AutoRetry))
 	if fs.Fail == "wrong_type" || fs.Fail == "missing_key" {
@@ -709,6 +766,24 @@ func runFailCase(c *vf.Ctx, fp *faultProgram, idx int, fs failSpec) *failOutcome
 		// one-shot fault + auto retry: must equal the baseline
 		if got := canonOuts(cs, top.Name); got != fp.baseOuts {
 			add("autoretry-result-differs:"+fs.Fail, fmt.Sprintf("fault %v was retried to success but outputs differ from the fault-free run: %s vs %s", fs, truncate(got, 500), truncate(fp.baseOuts, 500)))
+		}
+		// ... and only the failed job may have been executed again
+		starts := map[string]int{}
+		for _, e := range evs {
+			if e.Ev == "start" {
+				starts[logicalJob(e.Job)]++
+			}
+		}
+		var again []string
+		for j, n := range starts {
+			if n > 1 && j != logicalJob(fs.Job) {
+				again = append(again, fmt.Sprintf("%s x%d", j, n))
+			}
+		}
+		sort.Strings(again)
+		if len(again) > 0 {
+			oc.retriedOthers = len(again)
+			add("unfailed-job-reexecuted-by-autoretry:"+fs.Fail, fmt.Sprintf("fault %v in %s was retried in-process; jobs that had not failed were executed again: %s (bystander kept running: %s)", fs.Fail, fs.Job, strings.Join(again, ", "), oc.bystander))
 		}
 		return oc
 	}
@@ -863,6 +938,16 @@ func init() {
 					jobs = append(jobs, job{fp, idx, fs})
 					idx++
 				}
+				// transient faults retried in-process (retry.json: "signal: ..."),
+				// with a bystander job kept running (see runFailCase)
+				for k, kind := range []string{"kill9", "kill_mrjob", "segv", "kill9"} {
+					j := fp.jobs[rng.Intn(len(fp.jobs))]
+					if len(multi) > 0 && k%2 == 1 {
+						j = multi[rng.Intn(len(multi))]
+					}
+					jobs = append(jobs, job{fp, idx, failSpec{Job: j, Fail: kind, AutoRetry: 2}})
+					idx++
+				}
 			}
 		}
 		var mu sync.Mutex
@@ -892,6 +977,9 @@ func init() {
 					c.Eval(1)
 					if oc.inconclusive != "" {
 						c.Inconclusive(oc.inconclusive)
+					}
+					if oc.bystander != "" {
+						c.Count("in_process_retry_cases_with_bystander_running", 1)
 					}
 					if oc.faultFired {
 						c.Distinct(fmt.Sprintf("%d|%v", jb.fp.seed, jb.fs))
